@@ -123,11 +123,18 @@ class Recorder:
 _CHECK = None
 
 
+_EXECUTED: list = []     # case indexes this process has executed, in order
+
+
 def _worker(item):
     index, case = item
     try:
         result = _CHECK.run_case(case)
         result['index'] = index
+        # what this process ran before: a failure that needs shared state left behind by earlier cases
+        # is replayed together with them
+        result['preceding'] = list(_EXECUTED)
+        _EXECUTED.append(index)
         return result
     except BaseException as exc:  # noqa: BLE001
         return {
@@ -135,6 +142,30 @@ def _worker(item):
             'harness_error': f"{type(exc).__name__}: {exc}",
             'traceback': traceback.format_exc(),
         }
+
+
+def _isolated(sequence):
+    """Run a sequence of cases in a forked child of this (pristine) process; return the last result."""
+    import pickle
+    read_fd, write_fd = os.pipe()
+    pid = os.fork()
+    if pid == 0:
+        try:
+            os.close(read_fd)
+            result = None
+            for item in sequence:
+                result = _worker(item)
+            with os.fdopen(write_fd, 'wb') as f:
+                pickle.dump(result, f)
+        finally:
+            os._exit(0)
+    os.close(write_fd)
+    with os.fdopen(read_fd, 'rb') as f:
+        data = f.read()
+    os.waitpid(pid, 0)
+    if not data:
+        return {'harness_error': 'isolated replay died', 'traceback': ''}
+    return pickle.loads(data)
 
 
 def _worker_chunk(items):
@@ -253,18 +284,29 @@ def run(check, tier: str, seed: int, replay: str | None = None) -> int:
             if seen_fp[fp] > 2 or len(replay_paths) >= MAX_REPLAY_FILES:
                 continue
             # determinism guard: the same case must fail the same way when run again
-            again = _worker((index, cases[index]))
+            again = _isolated([(index, cases[index])])
             again_fps = sorted(v['fingerprint'] for v in again.get('violations', []))
             first_fps = sorted(v['fingerprint'] for v in results[index]['violations'])
+            preceding = []
             if 'harness_error' in again or again_fps != first_fps:
-                print(f"HARNESS-NONDETERMINISM property={property_id} case={index}: "
-                      f"{first_fps} then {again_fps or again.get('harness_error')}")
-                return 2
+                # The harness owns every source of nondeterminism (no threads, clocks or randomness), so a
+                # case that fails after other cases but not alone points at state shared between objects
+                # in the code under test.  Replay it after the cases its worker ran before it.
+                preceding = results[index].get('preceding', [])
+                sequel = _isolated([(k, cases[k]) for k in preceding] + [(index, cases[index])])
+                sequel_fps = sorted(v['fingerprint'] for v in sequel.get('violations', []))
+                if 'harness_error' in sequel or sequel_fps != first_fps:
+                    print(f"HARNESS-NONDETERMINISM property={property_id} case={index}: {first_fps} in its worker, "
+                          f"{again_fps or again.get('harness_error')} alone, {sequel_fps or sequel.get('harness_error')} after its predecessors")
+                    return 2
+                violation = dict(violation)
+                violation['what'] += f" [history dependent: holds when the case runs alone, fails after cases {preceding}]"
             path = os.path.join(replay_dir, f"{tier}-{len(replay_paths)}.json")
             with open(path, 'w') as f:
                 json.dump({
                     'property': property_id, 'tier': tier, 'case_index': index,
                     'case': cases[index], 'violation': violation,
+                    'preceding_cases': [cases[k] for k in preceding],
                 }, f, indent=1, default=repr)
             replay_paths.append(path)
             print(f"VIOLATION property={property_id} replay={path}")
@@ -333,6 +375,8 @@ def run_replay(check, path: str) -> int:
     case = data['case']
     if hasattr(check, 'prepare'):
         check.prepare(data.get('tier', 'quick'))
+    for earlier in data.get('preceding_cases', []):
+        _worker((-1, earlier))
     result = _worker((data.get('case_index', 0), case))
     if 'harness_error' in result:
         print(result['traceback'])
